@@ -47,12 +47,18 @@ def run_one(seed: str) -> dict:
 
 
 def main():
+    out_name = "MATRIX.json"
+    args = sys.argv[1:]
+    if args and args[0].startswith("--out="):
+        out_name = args[0][6:]
+        args = args[1:]
+    sys.argv = [sys.argv[0]] + args
     seeds = sys.argv[1:] or sorted(p.name for p in SEEDED.iterdir() if (p / "patch.diff").exists())
     with ProcessPoolExecutor(max_workers=8) as ex:
         rows = list(ex.map(run_one, seeds))
     matrix = {r["seed"]: r for r in rows}
-    if not sys.argv[1:]:
-        (SEEDED / "MATRIX.json").write_text(json.dumps(matrix, indent=1) + "\n")
+    if not sys.argv[1:] or out_name != "MATRIX.json":
+        (SEEDED / out_name).write_text(json.dumps(matrix, indent=1) + "\n")
     for r in rows:
         own = r["property"] in r["caught_by"] if r["applies"] else False
         others = sorted(set(r["caught_by"]) - {r["property"]})
